@@ -245,7 +245,13 @@ class MersenneTwister(StreamInterface):
         int
             a value between lo and hi (both inclusive)
         """
-        return lo + math.floor((hi - lo + 1) * self._random.random())
+        width = hi - lo + 1
+        u = self._random.random()
+        if width < 9007199254740992:
+            return lo + math.floor(width * u)
+        # a float cannot hold a width of 2**53 or more exactly (and not at
+        # all beyond 1.8e308): scale the 53 random bits in integer arithmetic
+        return lo + ((width * int(u * 9007199254740992)) >> 53)
     
     def seed(self) -> int:
         """
